@@ -549,6 +549,13 @@ def rule_r10(prog, res):
     res.share('R10', 'binary members are encoded over the joined chunks '
               '(C08-R5); the wrapper-key search uses the transitive subclass '
               'list (C16-R8)', 'C08', c08.rule_r16, prog, Result)
+    txt = ('bounds of the fixed-width integers are inclusive (C05-R3); the '
+           'duration writer keeps days, seconds and microseconds (C08-R3); '
+           'the polymorphic switch looks at the original of the declared '
+           'class (C16-R14)')
+    res.share('R10', txt, 'C08', c08.rule_r13, prog, Result)
+    res.share('R10', txt, 'C08', c08.rule_r3, prog, Result)
+    res.share('R10', txt, 'C16', c16.rule_r14, prog, Result)
 
 
 # ------------------------------------------------------------------ R11
